@@ -118,6 +118,16 @@ CLAIMS = {
         "(undecided within budget) - both carried by a bounded native run of the real pipeline.",
    note="trusted: pyvc engine; header formulas proved in C04; tone localisation and fine-channel values bounded only (level 'other' for that reason)",
    technique="contract-based deductive verification for the header/reader clauses; bounded native pipeline runs for tone localisation"),
+ 'C02': dict(cat='proof', ref='DESIGN.md 2/C02',
+   text="collect_data_block's sub-block loop (symbolic sub-block count, windows per block, branches, channels, first channel; taps in "
+        "{1,2,3,8}; 1-2 pols; 8/4 bit; digitiser on/off; first or later block) carries an inductive invariant over ghost stream positions: "
+        "each stage is called with exactly the next samples of its stream (call-site obligations against the C10/C09/C08 contracts), every "
+        "(channel, time, polarisation, re/im) byte of the block equals the requantised spectrum at global position pos0+t of filterbank channel "
+        "start_chan+c in GUPPI layout (4-bit: real high / imag low nibble), every value fits a signed byte, a block consumes exactly "
+        "T*branches samples (+ one warm-up window), for every partition into sub-blocks incl. non-divisors. File/block loops of record(): C04. "
+        "Bounded native run: bytes vs a straight-line reference pipeline and bit-identical output for every partition.",
+   note="trusted: pyvc engine; stage contracts proved under C08/C09/C10 and used modularly; one antenna in the deductive contract; num_taps enumerated; FFT numerics bounded",
+   technique="contract-based deductive verification (loop invariant with ghost stream positions, affine scatter inversion, stepwise window-arithmetic lemmas); bounded native reference pipeline"),
 }
 NA_REASON = "not yet built in this session (see DESIGN.md build order)"
 
